@@ -30,7 +30,7 @@ ASSUMPTIONS = ['documented exceptions: estimate state (transform, bias) of Estim
                'EstimationModel / Parameters / Turntable methods may change their own object but never their arguments',
                'Turntable.generate_imu is excluded: it raises at baseline under scipy 1.18 (test_Turntable fails in BASELINE.json)',
                'values across argument forms compared to <= 4 ulp of the result scale (spline-based synthesis: 2e4 ulp, i.e. 4e-12 relative, because memory layout changes summation order); repeats of the same form bitwise']
-REQUIRED_OBS = ['callables_enumerated', 'callables_with_spec', 'purity_checks', 'readonly_runs', 'determinism_checks',
+REQUIRED_OBS = ['module_state_checks', 'callables_enumerated', 'callables_with_spec', 'purity_checks', 'readonly_runs', 'determinism_checks',
                 'form_comparisons', 'schema_checks', 'ambient_calls_checked']
 REQUIRED_CLASSES = {'all': ['directed', 'ambient']}
 MODULES = ['earth', 'error_model', 'filters', 'inertial_sensor', 'kalman', 'measurements', 'sim', 'strapdown', 'transform', 'util']
@@ -200,8 +200,11 @@ def specs(rng):
         Call('frames-swapped', transform.compute_state_difference, [traj.iloc[::2] * 1.0, traj], schema=schema_traj_error),
         Call('series', transform.compute_state_difference, [traj.iloc[1], traj.iloc[2]]))
     from scipy.spatial.transform import Rotation
-    add('transform.smooth_rotations', Call('rot', transform.smooth_rotations, [Rotation.from_euler('xyz', traj[RPH].values, True), 0.1, 0.5]))
-    add('transform.smooth_state', Call('traj', transform.smooth_state, [traj, 0.5]))
+    rots = Rotation.from_euler('xyz', traj[RPH].values, True)
+    add('transform.smooth_rotations', Call('rot', transform.smooth_rotations, [rots, 0.1, 0.5]), Call('rot-0.26', transform.smooth_rotations, [rots, 0.1, 0.26]),
+        Call('rot-0.34', transform.smooth_rotations, [rots, 0.1, 0.34]))
+    add('transform.smooth_state', Call('traj', transform.smooth_state, [traj, 0.5]), Call('traj-0.26', transform.smooth_state, [traj, 0.26]),
+        Call('traj-0.34', transform.smooth_state, [traj, 0.34]))
     # ---- util
     a3 = rng.standard_normal((n, 3, 3))
     b3 = rng.standard_normal((3, 3))
@@ -252,6 +255,14 @@ def specs(rng):
     add('strapdown.Integrator.get_time', Call('get', lambda I: I.get_time(), [], self_obj=mkI))
     add('strapdown.Integrator.get_pva', Call('get', lambda I: I.get_pva(), [], self_obj=mkI))
     add('strapdown.Integrator.set_pva', Call('set', lambda I, p: I.set_pva(p), [traj.iloc[1] * 1.0], self_obj=mkI, self_allowed=allowed_I))
+    # the no-altitude mode with a state whose vertical velocity is not zero (the object may normalise its own copy, never the caller's)
+    pva_vd = traj.iloc[0] * 1.0
+    pva_vd['VD'] = -0.64
+    mkI2 = lambda: strapdown.Integrator(pva_vd, False)        # noqa: E731
+    add('strapdown.Integrator', Call('ctor2d-vd', lambda p, wa: strapdown.Integrator(p, wa).trajectory, [pva_vd, False], schema=schema_trajectory))
+    add('strapdown.Integrator.set_pva', Call('set2d-vd', lambda I, p: I.set_pva(p), [pva_vd * 1.0], self_obj=mkI2, self_allowed=allowed_I))
+    add('strapdown.Integrator.integrate', Call('2d', lambda I, x: I.integrate(x), [inc], self_obj=mkI2, self_allowed=allowed_I, schema=schema_trajectory))
+    add('strapdown.Integrator.predict', Call('2d', lambda I, x: I.predict(x), [inc.iloc[0]], self_obj=mkI2, self_allowed={'lla', 'velocity_n', 'mat_nb'}))
     # ---- error model
     em3, em2 = error_model.InsErrorModel(True), error_model.InsErrorModel(False)
     pr = pd.concat([traj.iloc[3], pd.Series([.1, .2, .3], index=RATE)])
@@ -351,6 +362,38 @@ def _raises(f):
     return 'returned'
 
 
+# ------------------------------------------------------------------ hidden module state
+def module_state():
+    """Snapshot of every mutable module-level / class-level object of the ten modules (lists, dicts, sets, arrays, tables) and of
+    the size of any functools cache: a public call that changes it has hidden state, i.e. its result can depend on the call order."""
+    import importlib
+    snap = {}
+    for m in MODULES + ['_numba_integrate']:
+        mod = importlib.import_module('pyins.' + m)
+        for k, v in vars(mod).items():
+            if k.startswith('__'):          # interpreter bookkeeping (__warningregistry__, __builtins__, ...)
+                continue
+            if isinstance(v, (list, dict, set, np.ndarray, pd.DataFrame, pd.Series)):
+                snap[f'{m}.{k}'] = purity.snapshot(v)
+            elif hasattr(v, 'cache_info') and callable(getattr(v, 'cache_info', None)):
+                try:
+                    snap[f'{m}.{k}.cache'] = ('val', repr(v.cache_info().currsize))
+                except Exception:
+                    pass
+            elif inspect.isclass(v) and getattr(v, '__module__', '') == mod.__name__:
+                for ck, cv in vars(v).items():
+                    if isinstance(cv, (list, dict, set, np.ndarray)) and not ck.startswith('__'):
+                        snap[f'{m}.{k}.{ck}'] = purity.snapshot(cv)
+            elif inspect.isfunction(v) and getattr(v, '__module__', '') == mod.__name__:
+                for ck, cv in vars(v).items():          # function attributes used as caches
+                    snap[f'{m}.{k}.{ck}'] = purity.snapshot(cv)
+    return snap
+
+
+def module_state_diff(a, b):
+    return sorted([k for k in set(a) | set(b) if a.get(k) != b.get(k)])
+
+
 # ------------------------------------------------------------------ directed driver
 def to_form(a, form):
     if form == 'ndarray':
@@ -400,6 +443,7 @@ def run_directed(name, calls, seeds, obs):
     for call in calls:
         for seed in seeds:
             where = f'{name}[{call.label}]'
+            ms0 = module_state()
             sd = seed if call.seed_arg is not None else None
             base_args = [clone(a) for a in call.args]
             before = purity.snapshot(base_args)
@@ -421,6 +465,11 @@ def run_directed(name, calls, seeds, obs):
                 out.append(vio('exception', f'{where}: {type(e).__name__}: {e}'))
                 break
             bump('purity_checks')
+            bump('module_state_checks')
+            changed_state = module_state_diff(ms0, module_state())
+            if changed_state:
+                out.append(vio('hidden_module_state', f'{where}: the call changed module-level state {changed_state[:4]}: results can depend on the '
+                               f'order of earlier calls'))
             after = purity.snapshot(base_args)
             if before != after:
                 ch = purity.diff(before, after)
@@ -604,6 +653,7 @@ def run_case(case):
     AMBIENT['calls'] = 0
     AMBIENT['on'] = True
     out = []
+    ms0 = module_state()
     try:
         kind = case['kind']
         if kind in ('feedback', 'feedforward'):
@@ -620,7 +670,8 @@ def run_case(case):
         elif kind == 'history':
             from rv.workloads import integrator_histories as H
             H.OBS.clear()
-            o, _ = H.run_history(dict(seed=case['seed'], with_altitude=case['seed'] % 2 == 0, initial_size=5, n_inc=60))
+            o, _ = H.run_history(dict(seed=case['seed'], with_altitude=case['seed'] % 2 == 0, initial_size=5, n_inc=60),
+                                 two_d_monitors=case['seed'] % 2 == 1)
             out.extend(o)
         elif kind == 'sim':
             from pyins import sim, strapdown, transform, error_model
@@ -647,6 +698,10 @@ def run_case(case):
     finally:
         AMBIENT['on'] = False
     out.extend(AMBIENT['violations'])
+    ch = module_state_diff(ms0, module_state())
+    obs['module_state_checks'] = 1
+    if ch:
+        out.append(vio('hidden_module_state', f'ambient {case["kind"]}: module-level state changed during the run: {ch[:4]}'))
     obs['ambient_calls_checked'] = AMBIENT['calls']
     return dict(violations=out, obs=obs, nontrivial=True, evals=max(1, AMBIENT['calls']), nontrivial_count=max(1, AMBIENT['calls']),
                 sample=dict(kind=case['kind'], seed=case['seed'], public_calls_observed=AMBIENT['calls']))
